@@ -155,6 +155,12 @@ def run(chk):
     C01.check_s3(chk, m, K)          # queues never corrupted: no fibre is linked into a queue twice
     chk.rule_filter = lambda r: r.startswith("S6")
     C01.check_s4_s6(chk, m, K)
+    # a request fibre_run_atomic accepted is received only if its slot has a flag bit: the queue's depth must fit the 32-bit
+    # flag word (C01 S10 on the static initialiser)
+    _pf, _ff = chk.rule_prefix, chk.rule_filter
+    chk.rule_prefix, chk.rule_filter = "C01.", None
+    fib.check_atomic_queue_geometry(chk, m, K, min_depth=1)
+    chk.rule_prefix, chk.rule_filter = _pf, _ff
     chk.rule_prefix = "C03."
     chk.rule_filter = lambda r: r.startswith("U2")
     from ..paths import enumerate_paths
